@@ -147,6 +147,10 @@ pub struct AdvCase {
     /// Z dials only: the hello carries no server name at all (no name is never an accepted name)
     #[serde(default)]
     pub no_sni: bool,
+    /// the honest node dials: with the impostor's identity pinned (connect_with_peer_id; the
+    /// impostor really owns that key, only its certificate names another network)
+    #[serde(default)]
+    pub pinned: bool,
 }
 
 fn name_pool() -> BoxedStrategy<String> {
@@ -229,7 +233,7 @@ pub fn adv_case(c: &AdvCase, obs: &mut Obs) -> Result<(), Fail> {
                     }
                 }
             });
-            let r = within(20_000, l.net.connect(node_addr(3))).await;
+            let r = if c.pinned { obs.label("honest-dial-pinned"); within(20_000, l.net.connect_with_peer_id(node_addr(3), z_id)).await } else { within(20_000, l.net.connect(node_addr(3))).await };
             let ok = matches!(r, Ok(Ok(_)));
             // a dialer always uses its primary name
             let claimed = sni_seen.lock().unwrap().clone();
@@ -256,12 +260,12 @@ impl Part for Adversarial {
     type Case = AdvCase;
     fn name(&self) -> &'static str { "adversarial-names" }
     fn rule(&self) -> &'static str {
-        "an adversarial raw QUIC endpoint with a valid key dials an honest listener claiming SNI s (or sending no server name at all) while presenting a certificate with SANs c (s and c chosen independently from the name pool: the grid names, wildcards, label-suffix/prefix relatives, case variants, random), optionally after the same key paid a fully valid visit and disconnected (so that nothing remembered about a key can replace the checks), or is dialed by an honest node and presents c; oracle: admitted => s is an accepted name AND the certificate is valid for an accepted name (x509 reference); the honest dialer only ever claims its primary name and accepts only certificates valid for it; matching configurations are admitted; non-trivial = SNI accepted but certificate issued for another name (the path the suite never reaches) or vice versa; distinct by case"
+        "an adversarial raw QUIC endpoint with a valid key dials an honest listener claiming SNI s (or sending no server name at all) while presenting a certificate with SANs c (s and c chosen independently from the name pool: the grid names, wildcards, label-suffix/prefix relatives, case variants, random), optionally after the same key paid a fully valid visit and disconnected (so that nothing remembered about a key can replace the checks), or is dialed by an honest node - plainly or with the impostor's (genuinely owned) identity pinned - and presents c; oracle: admitted => s is an accepted name AND the certificate is valid for an accepted name (x509 reference); the honest dialer only ever claims its primary name and accepts only certificates valid for it; matching configurations are admitted; non-trivial = SNI accepted but certificate issued for another name (the path the suite never reaches) or vice versa; distinct by case"
     }
     fn strategy(&self, _t: Tier) -> BoxedStrategy<AdvCase> {
         let cfg = (0u8..6, prop::option::of(0u8..6)).prop_map(|(primary, alternate)| NameCfg { primary, alternate: alternate.filter(|a| *a != primary) });
-        (cfg, name_pool(), prop::collection::vec(name_pool(), 1..3), any::<bool>(), prop::bool::weighted(0.3), prop::bool::weighted(0.15))
-            .prop_map(|(listener, sni, cert_names, z_dials, prior_valid_visit, no_sni)| AdvCase { listener, sni, cert_names, z_dials, prior_valid_visit, no_sni })
+        (cfg, name_pool(), prop::collection::vec(name_pool(), 1..3), any::<bool>(), prop::bool::weighted(0.3), prop::bool::weighted(0.15), any::<bool>())
+            .prop_map(|(listener, sni, cert_names, z_dials, prior_valid_visit, no_sni, pinned)| AdvCase { listener, sni, cert_names, z_dials, prior_valid_visit, no_sni, pinned })
             .boxed()
     }
     fn run(&self, c: &AdvCase, obs: &mut Obs) -> Result<(), Fail> { adv_case(c, obs) }
